@@ -218,6 +218,48 @@ impl tracing::Subscriber for BranchCounter {
 	fn exit(&self, _: &tracing::span::Id) {}
 }
 
+/// A subscriber that wants everything: every event of every target at every level is enabled and all of its fields are
+/// rendered (and thrown away). The arguments of `tracing::trace!(..)` and friends are only evaluated when a subscriber
+/// enables the call site, so code that lives inside a log statement - a slice, an index, an `unwrap`, a `Display`
+/// implementation - only runs under such a subscriber. Use with `tracing::subscriber::with_default` around a run.
+pub struct LogEverything;
+pub static LOG_EVENTS_RENDERED: AtomicU64 = AtomicU64::new(0);
+pub static LOG_BYTES_RENDERED: AtomicU64 = AtomicU64::new(0);
+
+struct RenderAll(usize);
+impl tracing::field::Visit for RenderAll {
+	fn record_debug(&mut self, _: &tracing::field::Field, value: &dyn std::fmt::Debug) {
+		self.0 += format!("{value:?}").len();
+	}
+	fn record_str(&mut self, _: &tracing::field::Field, value: &str) {
+		self.0 += value.len();
+	}
+}
+
+impl tracing::Subscriber for LogEverything {
+	fn enabled(&self, _: &tracing::Metadata<'_>) -> bool {
+		true
+	}
+	fn new_span(&self, a: &tracing::span::Attributes<'_>) -> tracing::span::Id {
+		let mut v = RenderAll(0);
+		a.record(&mut v);
+		tracing::span::Id::from_u64(1)
+	}
+	fn record(&self, _: &tracing::span::Id, r: &tracing::span::Record<'_>) {
+		let mut v = RenderAll(0);
+		r.record(&mut v);
+	}
+	fn record_follows_from(&self, _: &tracing::span::Id, _: &tracing::span::Id) {}
+	fn event(&self, e: &tracing::Event<'_>) {
+		let mut v = RenderAll(0);
+		e.record(&mut v);
+		LOG_EVENTS_RENDERED.fetch_add(1, Ordering::Relaxed);
+		LOG_BYTES_RENDERED.fetch_add(v.0 as u64, Ordering::Relaxed);
+	}
+	fn enter(&self, _: &tracing::span::Id) {}
+	fn exit(&self, _: &tracing::span::Id) {}
+}
+
 /// Install the counter as the process-wide subscriber (idempotent; false if another subscriber is already set).
 pub fn install_branch_counter() -> bool {
 	tracing::subscriber::set_global_default(BranchCounter).is_ok()
